@@ -25,6 +25,7 @@ RULE = (
     "name / integer, multi-select, confirmation - each of which must return the very default it was given), raises} x streams claiming / denying ANSI. Control: the same tokens after "
     "'--', also with a switch as the last token right before '--'. Sequences: four runs with different switches on ONE application object, each compared with the same line on a "
     "fresh application (a switch governs its own run only). Clauses per switch as in the statement; handler-level clauses only when the base command's handler still runs. "
+    "Also: is_verbose / is_very_verbose / is_debug of the I/O and both outputs follow the selected level. "
     "non-trivial = variant with >= 1 switch not at the end; distinct by (switch set, positions class, spelling, handler kind, "
     "stream kind, tree shape)."
 )
